@@ -44,12 +44,16 @@ static void opstr(int i, char *b, size_t n)
 }
 static void gen_ops(void)
 {
-	static const long blks[] = { 0, 1, 5, 6, 9, 10, 11 }, cnts[] = { 1, 2, 5, -512, -1536 };
+	static const long blks[] = { 0, 1, 5, 6, 9, 10, 11 }, cnts[] = { 1, 2, 5, -512, -1536 }, cnts34[] = { 3, 4 };	/* 3 and 4: the largest requests that still go through the cache */
 	static const long offs[] = { 0, 1023, 1024, 1500, 5130 }, lens[] = { 1, 2, 1024, 1025 };
 	static const long zb[] = { 0, 1, 5 }, zn[] = { 1, 2, 5 };
 	unsigned i, j;
 	for (i = 0; i < 7; i++) for (j = 0; j < 5; j++) addop(K_R, blks[i], cnts[j], cnts[j] == 1);
 	for (i = 0; i < 7; i++) for (j = 0; j < 5; j++) addop(K_W, blks[i], cnts[j], 0);
+	/* (kept to a handful of positions: every extra operation multiplies the state space) */
+	addop(K_R, 9, 3, 0); addop(K_R, 5, 4, 0); addop(K_R, 0, 3, 0); addop(K_R, 8, 4, 0);
+	addop(K_W, 9, 3, 0); addop(K_W, 5, 4, 0);
+	(void) cnts34;
 	for (i = 0; i < 5; i++) for (j = 0; j < 4; j++) addop(K_WB, offs[i], lens[j], 0);
 	for (i = 0; i < 3; i++) for (j = 0; j < 3; j++) addop(K_Z, zb[i], zn[j], 0);
 	for (i = 0; i < 3; i++) for (j = 0; j < 3; j++) addop(K_D, zb[i], zn[j], 0);
